@@ -221,6 +221,9 @@ inductive Op
   | cached (n : Bytes) (build launch : Bool) (mt : MetaT) (ci : CbInv) (cr : CbRes)
   | uncached (n : Bytes) (build launch : Bool)
   | wmeta (n : Bytes) (m : MetaTbl)
+  /-- `write_metadata` with a value serde accepts but TOML cannot encode (an unsigned integer above `i64::MAX`, …):
+  `replace_layer_metadata` reads the file, then `write_toml_file` serialises *before* it opens the file for writing -/
+  | wmetaBad (n : Bytes)
   | wenv (n : Bytes) (ins : List Spec.Ins)
   | wsbom (n : Bytes) (sb : List (Nat × Bytes))
   | wexecd (n : Bytes) (progs : List (Bytes × Option Bytes))
@@ -236,7 +239,7 @@ structure St where
 deriving Repr
 
 def Op.name : Op → Option Bytes
-  | .cached n .. => some n | .uncached n .. => some n | .wmeta n _ => some n | .wenv n _ => some n
+  | .cached n .. => some n | .uncached n .. => some n | .wmeta n _ => some n | .wmetaBad n => some n | .wenv n _ => some n
   | .wsbom n _ => some n | .wexecd n _ => some n | .wfile n .. => some n | .breakToml n => some n | .restore => none
 
 def isRequestOk : Out → Bool
@@ -250,6 +253,7 @@ def stepLayer (l : Layer) : Op → Layer × Out × List CbCall
     let r := handleLayer l ⟨la, b, false⟩ .generic (.delete 0) (.delete 0) 3 []
     (r.1, r.2.1, [])
   | .wmeta _ m => let r := writeMeta l m; (r.1, r.2, [])
+  | .wmetaBad _ => (l, .err .metaFile, [])
   | .wenv _ ins => let r := writeEnv l ins; (r.1, r.2, [])
   | .wsbom _ sb => let r := replaceSboms l sb; (r.1, r.2, [])
   | .wexecd _ ps => let r := replaceExecd l ps; (r.1, r.2, [])
@@ -261,7 +265,7 @@ def isRequest : Op → Bool
   | .cached .. => true | .uncached .. => true | _ => false
 
 def isWrite : Op → Bool
-  | .wmeta .. => true | .wenv .. => true | .wsbom .. => true | .wexecd .. => true | .wfile .. => true | _ => false
+  | .wmeta .. => true | .wmetaBad .. => true | .wenv .. => true | .wsbom .. => true | .wexecd .. => true | .wfile .. => true | _ => false
 
 def step (s : St) (op : Op) : St × Out × List CbCall :=
   match op with
